@@ -84,6 +84,13 @@ CHECKS = {
         "text": "For str / bytes / pathlib.Path roots in absolute, relative and trailing-slash spellings (root names with non-ASCII and undecodable bytes too), histories incl. directory renames with descendants and move-in of trees run against the inotify (normal and full) and polling observers; every non-empty src/dest path of every event (synthetic and parent-directory events included) must have the caller's path type and, after os.fsencode, name an entry the history really had under the root as given.",
         "note": "Trusted: vlib/fsops.py, the model's set of names. The root itself is accepted with or without its trailing separator.",
     },
+    "C11": {
+        "engine": "fsops",
+        "design_ref": "DESIGN.md §4 C11",
+        "technique": "property-based testing: differential between a filtered and an unfiltered watch of the same root under one observer (metamorphic relation filtered == filter(unfiltered)), exhaustive over singleton and pair filters, Hypothesis for larger subsets and histories",
+        "text": "Every singleton and pair filter over the 11 concrete classes and the two base classes (quick: all singletons, a seed-dependent quarter of the pairs) x recursive x normal/full runs a fixed history with boundary moves and late-arriving directories, random larger filters run generated single-op histories; per operation both logs are cut at the same logical sentinel event and the collapsed filtered stream must equal the collapsed isinstance-filtered unfiltered stream.",
+        "note": "Assumes two inotify instances on one directory see identical native streams when operations are issued one at a time. A filtered watch that never reaches the cut event within 10 s although the unfiltered one has it is reported as a missing event. Trusted: vlib/fsops.py, sentinel sequence in props/c11.py.",
+    },
 }
 
 ALL = [f"C{i:02d}" for i in range(1, 21)]
